@@ -29,8 +29,9 @@ var ghostNodeOf func(e kv.Entry) *ziptree.Node
 //@ func newEntryFromNode
 //@   property C07
 //@   trusted
+//@   pure
 //@   requires node != nil
-//@   ensures result != nil && ghostNodeOf(kv.Entry(result)) == node
+//@   ensures result != nil && ghostNodeOf(kv.Entry(result)) == node && string(kv.Entry(result).Key()) == string(node.Key)
 
 //@ func MemTable.Get
 //@   property C07 C03
@@ -60,3 +61,32 @@ var ghostNodeOf func(e kv.Entry) *ziptree.Node
 //@     invariant -1 <= i && i < len(tables) && tables == l.tables
 //@     invariant forall(i+1, len(tables), func(j int) bool { return !has(tables[j].zt.view, string(key)) })
 //@     decreases i + 1
+
+// ---- scans (C07, C03, C10). A memtable scan yields one entry per tree node with the prefix -
+// puts AND deletes - in ascending key order: a delete has to take part in the merge with older
+// tables so that it hides their versions of the key.
+//@ define scanSorted(q) := forall(0, seqlen(q), func(ii_ int) bool { return forall(0, ii_, func(jj_ int) bool { return string(seqat(q, jj_).Key()) < string(seqat(q, ii_).Key()) }) })
+//@ func MemTable.ScanPrefix
+//@   property C07 C03
+//@   pure
+//@   reads t.zt, t.zt.view
+//@   requires t.zt != nil
+//@   modifies nothing
+//@   ensures seqlen(result) == seqlen(t.zt.AscendPrefix(prefix))
+//@   ensures forall(0, seqlen(result), func(p int) bool { return seqat(result, p) == kv.Entry(newEntryFromNode(seqat(t.zt.AscendPrefix(prefix), p))) })
+//@   ensures scanSorted(result)
+//@   loop 0:
+//@     invariant len(out_) == idx_ && forall(0, idx_, func(p int) bool { return out_[p] == kv.Entry(newEntryFromNode(seqat(coll_, p))) && string(out_[p].Key()) == string(seqat(coll_, p).Key) })
+
+// List.ScanPrefix merges the scans of all memtables: per key the newest operation of any
+// memtable (a put or a delete), ascending.
+//@ define inMem(l, prefix, e) := exists(0, len(l.tables), func(ii_ int) bool { return exists(0, seqlen(l.tables[ii_].ScanPrefix(prefix)), func(qq_ int) bool { return seqat(l.tables[ii_].ScanPrefix(prefix), qq_) == e }) })
+//@ define newerIn(res, e) := exists(0, seqlen(res), func(pp_ int) bool { return string(seqat(res, pp_).Key()) == string(e.Key()) && seqat(res, pp_).SeqNum() >= e.SeqNum() })
+//@ func List.ScanPrefix
+//@   property C07 C03
+//@   modifies nothing
+//@   ensures scanSorted(result)
+//@   ensures forall(0, seqlen(result), func(p int) bool { return inMem(l, prefix, seqat(result, p)) })
+//@   ensures forall(0, len(l.tables), func(i int) bool { return forall(0, seqlen(l.tables[i].ScanPrefix(prefix)), func(q int) bool { return newerIn(result, seqat(l.tables[i].ScanPrefix(prefix), q)) }) })
+//@   loop 0:
+//@     invariant len(iters) == len(tables) && tables == l.tables && forall(0, idx_, func(i int) bool { return iters[i] == tables[i].ScanPrefix(prefix) && scanSorted(iters[i]) })
